@@ -382,4 +382,150 @@ theorem ordered_mkCells (sps : List Spec) : ∀ u inp, Ordered u (mkCells sps in
   | nil => intro _ _; trivial
   | cons sp sps ih => intro u inp; exact ⟨by simp [St.isExited], ih _ _⟩
 
+/-! ## a payload that fits in one pipe never blocks, however the stages are started -/
+
+/-- bytes in flight -/
+def inFlight : List Cell → Nat
+  | [] => 0
+  | c :: cs => c.buf.length + inFlight cs
+
+theorem headAct_inFlight (cap n : Nat) (u v : Bool) (cells : List Cell) (out : List Byte)
+    (r : List Cell × List Byte) (h : headAct cap n u v cells out = some r) :
+    inFlight r.1 ≤ inFlight cells := by
+  cases cells with
+  | nil => simp [headAct] at h
+  | cons c cs =>
+    unfold headAct at h
+    cases hst : c.st with
+    | notStarted =>
+      simp only [hst] at h
+      split at h
+      · cases h; simp [inFlight]
+      · cases h
+    | exited k => simp [hst] at h
+    | running fwd failed =>
+      simp only [hst] at h
+      split at h
+      · cases h; simp [inFlight]
+      · split at h
+        · split at h
+          · cases h; simp [inFlight]
+          · cases h
+        · have hm := take_len_le c.buf (n + 1)
+          generalize hmdef : min (c.buf.take (n + 1)).length (remaining c fwd n) = m at h
+          split at h
+          · cases h
+          · split at h
+            · cases h; simp [inFlight, List.length_drop]
+            · split at h
+              · cases h; simp [inFlight, List.length_drop]
+              · rename_i d ds
+                split at h
+                · split at h
+                  · cases h; simp [inFlight]
+                  · cases h; simp [inFlight, List.length_drop]
+                · generalize hkdef : min m (cap - d.buf.length) = k at h
+                  split at h
+                  · cases h
+                  · cases h
+                    have hk : k ≤ c.buf.length := by omega
+                    simp only [inFlight, List.length_drop, List.length_append, List.length_map,
+                      List.length_take, Nat.min_eq_left hk]
+                    omega
+
+theorem stepAt_inFlight (cap n : Nat) : ∀ (p : Nat) (u v : Bool) (cells : List Cell) (out : List Byte)
+    (r : List Cell × List Byte), stepAt cap n p u v cells out = some r → inFlight r.1 ≤ inFlight cells := by
+  intro p
+  induction p with
+  | zero => intro u v cells out r h; exact headAct_inFlight cap n u v cells out r (by simpa [stepAt] using h)
+  | succ p ih =>
+    intro u v cells out r h
+    cases cells with
+    | nil => simp [stepAt] at h
+    | cons c cs =>
+      simp only [stepAt, Option.map_eq_some_iff] at h
+      obtain ⟨r', hr', rfl⟩ := h
+      have := ih _ _ cs out r' hr'
+      simp only [inFlight]; omega
+
+/-- the head stage cannot act before something upstream happens -/
+def Blocked (u v : Bool) : List Cell → Prop
+  | [] => False
+  | c :: _ => (v = false ∧ c.st = .notStarted) ∨
+      (u = false ∧ c.buf = [] ∧ ∃ fwd failed, c.st = .running fwd failed ∧ limitReached c fwd = false)
+
+theorem progress_room (cap : Nat) (out : List Byte) : ∀ (cells : List Cell) (u v : Bool),
+    inFlight cells ≤ cap →
+    (∃ p, (stepAt cap 0 p u v cells out).isSome = true) ∨ AllExited cells ∨ Blocked u v cells := by
+  intro cells
+  induction cells with
+  | nil => intro u v _; right; left; intro c hc; cases hc
+  | cons c cs ih =>
+    intro u v hfl
+    have hfl' : inFlight cs ≤ cap := by simp only [inFlight] at hfl; omega
+    cases hst : c.st with
+    | notStarted =>
+      cases v with
+      | true => left; exact ⟨0, by simp [stepAt, headAct, hst]⟩
+      | false => right; right; exact Or.inl ⟨rfl, hst⟩
+    | exited k =>
+      have hok : spawnOK c = true := by simp [spawnOK, hst, St.isStarted, St.isExited]
+      have hex : c.st.isExited = true := by simp [hst, St.isExited]
+      rcases ih true true hfl' with ⟨p, h⟩ | h | h
+      · left; exact ⟨p + 1, stepAt_succ_of cap 0 p u v c cs out (by rw [hex, hok]; exact h)⟩
+      · right; left
+        intro x hx
+        rcases List.mem_cons.mp hx with rfl | hx
+        · exact hex
+        · exact h x hx
+      · cases cs with
+        | nil => cases h
+        | cons d ds =>
+          rcases h with ⟨h, _⟩ | ⟨h, _⟩ <;> cases h
+    | running fwd failed =>
+      cases hlim : limitReached c fwd with
+      | true => left; exact ⟨0, by simp [stepAt, headAct, hst, hlim]⟩
+      | false =>
+        cases hbuf : c.buf with
+        | nil =>
+          cases u with
+          | true => left; exact ⟨0, by simp [stepAt, headAct, hst, hlim, hbuf]⟩
+          | false => right; right; exact Or.inr ⟨rfl, hbuf, fwd, failed, hst, hlim⟩
+        | cons x rest =>
+          have hrem := remaining_pos c fwd 0 hlim
+          have hm : min ((x :: rest).take (0 + 1)).length (remaining c fwd 0) = 1 := by
+            simp; omega
+          left; refine ⟨0, ?_⟩
+          cases hemit : c.spec.emit with
+          | false =>
+            simp only [stepAt, headAct, hst, hlim, hbuf, hm]
+            simp [hemit]
+          | true =>
+            cases cs with
+            | nil =>
+              simp only [stepAt, headAct, hst, hlim, hbuf, hm]
+              simp [hemit]
+            | cons d ds =>
+              cases hdx : d.st.isExited with
+              | true =>
+                simp only [stepAt, headAct, hst, hlim, hbuf, hm]
+                cases hsig : c.spec.sigpipe <;> simp [hemit, hdx]
+              | false =>
+                have hroom : d.buf.length < cap := by
+                  simp only [inFlight, hbuf, List.length_cons] at hfl; omega
+                simp only [stepAt, headAct, hst, hlim, hbuf, hm]
+                simp [hemit, hdx]
+                omega
+
+theorem inFlight_mkCells_nil (sps : List Spec) : inFlight (mkCells sps []) = 0 := by
+  induction sps with
+  | nil => rfl
+  | cons sp sps ih => simp [mkCells, inFlight, ih]
+
+theorem inFlight_mkCells (sps : List Spec) (inp : List Byte) : inFlight (mkCells sps inp) ≤ inp.length := by
+  cases sps with
+  | nil => simp [mkCells, inFlight]
+  | cons sp sps => simp [mkCells, inFlight, inFlight_mkCells_nil]
+
+
 end BrushVerif.Pipe
